@@ -32,8 +32,16 @@ type Contract struct {
 	Inline    bool
 	Where     string
 	Props     []string
+	CallSites []CallAssert
 	Defines   string   // ufunc that denotes this (pure, deterministic) function's result
 	Witness   []Clause // extra entry-state terms reported with counterexamples
+}
+
+// CallAssert: `callsite <callee-key> <expr>` -- at every call of <callee> inside the function, <expr> must hold;
+// it may mention the callee's parameters by name, the caller's parameters and its source-level locals.
+type CallAssert struct {
+	Callee string
+	Clause Clause
 }
 
 type UFDecl struct {
@@ -60,7 +68,15 @@ type TypeInv struct {
 	Pkg, Type, Pred, Where string
 }
 
+type GlobalInv struct {
+	Pkg   string
+	Expr  Expr
+	Src   string
+	Where string
+}
+
 type ContractSet struct {
+	GlobalInvs []GlobalInv
 	TypeInvs   []TypeInv
 	UFuncs     []UFDecl
 	Immutables []Immutable
@@ -226,6 +242,14 @@ func (cs *ContractSet) loadFile(path, repo string) {
 				cs.errf("%s: duplicate contract for %s", at, cur.Key)
 			}
 			cs.Funcs[cur.Key] = cur
+		case "globalinv":
+			flush()
+			e, err := parseSpec(rest)
+			if err != nil {
+				cs.errf("%s: %v", at, err)
+				continue
+			}
+			cs.GlobalInvs = append(cs.GlobalInvs, GlobalInv{pkg, e, rest, at})
 		case "typeinv":
 			flush()
 			tn, pn := splitWord(rest)
@@ -248,6 +272,17 @@ func (cs *ContractSet) loadFile(path, repo string) {
 			flush()
 			if cur != nil {
 				cur.Defines = rest
+			}
+		case "callsite":
+			flush()
+			callee, ex := splitWord(rest)
+			if cur != nil {
+				e, err := parseSpec(ex)
+				if err != nil {
+					cs.errf("%s: %v", at, err)
+					continue
+				}
+				cur.CallSites = append(cur.CallSites, CallAssert{callee, Clause{e, ex, at}})
 			}
 		case "witness":
 			flush()
